@@ -22,6 +22,9 @@ pub fn never(_: &str) -> bool {
     false
 }
 
+/// optional hook applied to every case read from a corpus / replay file (see run_main)
+pub static NORMALISE: std::sync::OnceLock<fn(&str) -> String> = std::sync::OnceLock::new();
+
 pub fn run_main(p: Prop) {
     let args: Vec<String> = std::env::args().collect();
     if args.len() < 3 {
@@ -58,7 +61,10 @@ pub fn run_main(p: Prop) {
         for l in std::fs::read_to_string(f).unwrap_or_default().lines() {
             let l = l.trim();
             if !l.is_empty() && !l.starts_with('#') {
-                cases.push(l.to_string());
+                // stored cases may carry data that was read off the implementation when they were
+                // written (e.g. the pseudo-random hash weights of C11): a property-specific hook
+                // refreshes that part, so that a stored case stays a case about the current code
+                cases.push(match NORMALISE.get() { Some(f) => f(l), None => l.to_string() });
             }
         }
     }
